@@ -873,6 +873,9 @@ func genCfg(r *rng, algo, profile string) cfg {
 			c.gran = 1 << uint(r.rangeIncl(0, 12)) // gran > 1 with accept-all handler (linear scans use it)
 		}
 	}
+	if profile == "compact" && c.size < 65536 {
+		c.size = 65536 << uint(r.intn(5))
+	}
 	if c.handler == "vam" && c.gran > 256 && c.size/c.gran > 4096 {
 		c.size = c.gran*r.rangeIncl(3, 4096) + r.intn(c.gran)
 	}
@@ -1042,6 +1045,108 @@ func (h *hist) genOp(r *rng, profile string, i, n int) op {
 	return p
 }
 
+// ---------------------------------------------------------------- leaf functions
+
+// execLeaf evaluates one pure helper of the real code and prints the op line and its result.
+func execLeaf(out *bufio.Writer, f []string, st *stats) {
+	geti := func(i int) int {
+		if i >= len(f) {
+			return 0
+		}
+		v, _ := strconv.Atoi(f[i])
+		return v
+	}
+	fmt.Fprintln(out, strings.Join(f, " "))
+	st.ops[f[0]]++
+	res := ""
+	if guard(func() {
+		switch f[0] {
+		case "LSC":
+			mc, sli, idx, next := metadata.VerifTLSFSizeClass(geti(1))
+			res = fmt.Sprintf("R sc %d %d %d %d", mc, sli, idx, next)
+		case "LAL":
+			res = fmt.Sprintf("R al %d %d", memutils.AlignUp(geti(1), uint(geti(2))), memutils.AlignDown(geti(1), uint(geti(2))))
+		case "LPG":
+			b := metadata.VerifBlocksOnSamePage(geti(1), geti(2), geti(3), geti(4))
+			x := 0
+			if b {
+				x = 1
+			}
+			res = fmt.Sprintf("R pg %d", x)
+		case "LCF":
+			h := vam.VerifNewGranularityHandler(1024, 4096)
+			x := 0
+			if h.AllocationsConflict(uint32(geti(1)), uint32(geti(2))) {
+				x = 1
+			}
+			res = fmt.Sprintf("R cf %d", x)
+		case "LRU":
+			h := vam.VerifNewGranularityHandler(uint(geti(1)), 1)
+			s2, a2 := h.RoundUpAllocRequest(uint32(geti(2)), geti(3), uint(geti(4)))
+			res = fmt.Sprintf("R ru %d %d", s2, a2)
+		}
+	}) {
+		res = "R panic"
+	}
+	fmt.Fprintln(out, res)
+	st.results[f[0]+":"+strings.Fields(res)[1]]++
+}
+
+func genLeaf(out *bufio.Writer, r *rng, st *stats, n int) {
+	fmt.Fprintln(out, "H 0 leaf functions")
+	fmt.Fprintln(out, "CFG algo=leaf size=0 gran=1 handler=vam")
+	emit := func(format string, a ...any) {
+		execLeaf(out, strings.Fields(fmt.Sprintf(format, a...)), st)
+	}
+	// size classes: every small size, every class and second-level boundary up to 2^38, random sizes
+	for s := 1; s <= 1100; s++ {
+		emit("LSC %d", s)
+	}
+	for k := 8; k <= 38; k++ {
+		for j := 0; j <= 32; j++ {
+			base := 1<<uint(k) + j*(1<<uint(k-5))
+			for d := -1; d <= 1; d++ {
+				emit("LSC %d", base+d)
+			}
+		}
+	}
+	for i := 0; i < n; i++ {
+		emit("LSC %d", 1+r.intn(1<<uint(r.rangeIncl(1, 38))))
+	}
+	// alignment
+	for i := 0; i < n; i++ {
+		a := 1 << uint(r.rangeIncl(0, 20))
+		v := r.intn(1 << uint(r.rangeIncl(1, 39)))
+		if r.chance(30) {
+			v = a*r.intn(1000) + r.rangeIncl(-1, 1)
+			if v < 0 {
+				v = 0
+			}
+		}
+		emit("LAL %d %d", v, a)
+	}
+	// same-page test
+	for i := 0; i < n; i++ {
+		pg := 1 << uint(r.rangeIncl(0, 16))
+		o1 := r.intn(4 * pg)
+		s1 := r.rangeIncl(1, 2*pg)
+		o2 := o1 + s1 + r.intn(2*pg)
+		if r.chance(5) {
+			o2 = o1 + s1 - r.rangeIncl(1, 3) // precondition violated: panic
+		}
+		emit("LPG %d %d %d %d", o1, s1, o2, pg)
+	}
+	for a := 0; a <= 7; a++ {
+		for b := 0; b <= 7; b++ {
+			emit("LCF %d %d", a, b)
+		}
+	}
+	for i := 0; i < n; i++ {
+		emit("LRU %d %d %d %d", 1<<uint(r.rangeIncl(0, 16)), r.rangeIncl(0, 6), r.rangeIncl(1, 100000), 1<<uint(r.rangeIncl(0, 14)))
+	}
+	fmt.Fprintln(out, "END")
+}
+
 // ---------------------------------------------------------------- main
 
 func cfgLine(c cfg) string {
@@ -1103,14 +1208,64 @@ func main() {
 		n := fs.Int("n", 10, "")
 		ops := fs.Int("ops", 60, "")
 		profile := fs.String("profile", "basic", "")
+		prefix := fs.String("prefix", "", "ops file whose history is replayed before generation continues")
 		fs.Parse(os.Args[2:])
 		r := &rng{s: *seed*0x9e3779b97f4a7c15 + 12345}
+		if *algo == "leaf" {
+			genLeaf(out, r, st, *n)
+			printSummary(st, 1, nil)
+			return
+		}
+		if *prefix != "" {
+			// extension search: replay one history, then continue it with generated operations
+			data, err := os.ReadFile(*prefix)
+			if err != nil {
+				fmt.Fprintln(os.Stderr, err)
+				os.Exit(2)
+			}
+			var cfgl string
+			var pops []op
+			for _, line := range strings.Split(string(data), "\n") {
+				fl := strings.Fields(line)
+				if len(fl) == 0 {
+					continue
+				}
+				switch fl[0] {
+				case "CFG":
+					cfgl = line
+				case "A", "Q", "F", "U", "C", "M":
+					if p, err := parseOp(fl); err == nil {
+						pops = append(pops, p)
+					}
+				}
+			}
+			c := parseCfg(cfgl)
+			for i := 0; i < *n; i++ {
+				fmt.Fprintf(out, "H %d seed=%d extension of %s\n", i, *seed, *prefix)
+				fmt.Fprintln(out, cfgLine(c))
+				h := newHist(c, out, st)
+				for _, p := range pops {
+					h.exec(p)
+				}
+				nops := r.rangeIncl(3, *ops)
+				for j := 0; j < nops; j++ {
+					h.exec(h.genOp(r, *profile, j, nops))
+				}
+				fmt.Fprintln(out, "END")
+			}
+			printSummary(st, *n, nil)
+			return
+		}
 		for i := 0; i < *n; i++ {
 			c := genCfg(r, *algo, *profile)
 			fmt.Fprintf(out, "H %d seed=%d profile=%s\n", i, *seed, *profile)
 			fmt.Fprintln(out, cfgLine(c))
 			h := newHist(c, out, st)
 			nops := r.rangeIncl(*ops/3, *ops)
+			if *profile == "compact" && nops < 110 {
+				// compaction needs > 32 entries in one vector and 60% of them freed
+				nops = r.rangeIncl(110, 160)
+			}
 			for j := 0; j < nops; j++ {
 				h.exec(h.genOp(r, *profile, j, nops))
 			}
@@ -1139,9 +1294,13 @@ func main() {
 				nh++
 			case "CFG":
 				fmt.Fprintln(out, line)
-				h = newHist(parseCfg(line), out, st)
+				if c := parseCfg(line); c.algo != "leaf" {
+					h = newHist(c, out, st)
+				}
 			case "END":
 				fmt.Fprintln(out, "END")
+			case "LSC", "LAL", "LPG", "LCF", "LRU":
+				execLeaf(out, fl, st)
 			case "A", "Q", "F", "U", "C", "M":
 				p, err := parseOp(fl)
 				if err == nil && h != nil {
